@@ -1,0 +1,114 @@
+//go:build verif
+
+// Contracts for the deductive verifier in /verif (govc). Comment-only.
+
+package index
+
+//@ # ---- id sequences (C09): an id is handed out once; the persisted counters cover every id handed out before
+//@ # the sync; the counters are made durable before the dictionaries that use the ids ---------------------------
+//@ ghost field Sequence.syncedAt int
+//@ predicate idSeqOK(s *Sequence) bool = s.ns != nil && s.metric != nil && s.tagKey != nil && s.tagValue != nil && s.ns != s.metric && s.ns != s.tagKey && s.ns != s.tagValue && s.metric != s.tagKey && s.metric != s.tagValue && s.tagKey != s.tagValue
+//@ func Sequence.GenNamespaceSeq
+//@   prop C09
+//@   requires idSeqOK(s)
+//@   modifies s.ns.val
+//@   ensures[ids_are_handed_out_once_in_order] result == old(s.ns.val) && s.ns.val == old(s.ns.val) + 1
+//@ end
+//@ func Sequence.GenMetricNameSeq
+//@   prop C09
+//@   requires idSeqOK(s)
+//@   modifies s.metric.val
+//@   ensures[ids_are_handed_out_once_in_order] result == old(s.metric.val) && s.metric.val == old(s.metric.val) + 1
+//@ end
+//@ func Sequence.GenTagKeySeq
+//@   prop C09
+//@   requires idSeqOK(s)
+//@   modifies s.tagKey.val
+//@   ensures[ids_are_handed_out_once_in_order] result == old(s.tagKey.val) && s.tagKey.val == old(s.tagKey.val) + 1
+//@ end
+//@ func Sequence.GenTagValueSeq
+//@   prop C09
+//@   requires idSeqOK(s)
+//@   modifies s.tagValue.val
+//@   ensures[ids_are_handed_out_once_in_order] result == old(s.tagValue.val) && s.tagValue.val == old(s.tagValue.val) + 1
+//@ end
+//@ # the mapped bytes of the sequence file hold the four counters, little endian, at offsets 0/4/8/12
+//@ pure le32(b map[int]byte, o int) uint32 = uint32(b[o]) | uint32(b[o + 1]) << 8 | uint32(b[o + 2]) << 16 | uint32(b[o + 3]) << 24
+//@ func syncFn
+//@   modifies nothing
+//@ end
+//@ func Sequence.Sync
+//@   prop C09
+//@   clock
+//@   requires idSeqOK(s) && len(s.buf) >= 16 && offset(s.buf) == 0
+//@   modifies s.buf[*], s.syncedAt
+//@   ghost_assign s.syncedAt = now()
+//@   ensures s.syncedAt == now()
+//@   ensures[persisted_counters_cover_every_id_handed_out] le32(contents(s.buf), 0) == s.ns.val && le32(contents(s.buf), 4) == s.metric.val && le32(contents(s.buf), 8) == s.tagKey.val && le32(contents(s.buf), 12) == s.tagValue.val
+//@ end
+//@ ghost field IndexKVStore.flushedAt int
+//@ func IndexKVStore.Flush
+//@   norefine
+//@   modifies self.flushedAt
+//@   ensures self.flushedAt == now()
+//@ end
+//@ ghost field MetricSchemaStore.flushedAt int
+//@ func MetricSchemaStore.Flush
+//@   norefine
+//@   modifies self.flushedAt
+//@   ensures self.flushedAt == now()
+//@ end
+//@ func metricMetaDatabase.Flush
+//@   prop C09
+//@   clock
+//@   requires mm.sequence != nil && idSeqOK(mm.sequence) && len(mm.sequence.buf) >= 16 && offset(mm.sequence.buf) == 0 && mm.ns != nil && mm.metric != nil && mm.tagValue != nil && mm.schemaStore != nil && mm.ns != mm.metric && mm.ns != mm.tagValue && mm.metric != mm.tagValue && mm.schemaStore != mm.ns && mm.schemaStore != mm.metric && mm.schemaStore != mm.tagValue
+//@   modifies mm.sequence.buf[*], mm.sequence.syncedAt, mm.ns.flushedAt, mm.metric.flushedAt, mm.tagValue.flushedAt, mm.schemaStore.flushedAt, mm.flushing.val
+//@   ensures[id_counters_are_durable_before_any_dictionary] (calls(mm.ns.Flush) != old(calls(mm.ns.Flush)) ==> mm.ns.flushedAt > mm.sequence.syncedAt) && (calls(mm.metric.Flush) != old(calls(mm.metric.Flush)) ==> mm.metric.flushedAt > mm.sequence.syncedAt) && (calls(mm.tagValue.Flush) != old(calls(mm.tagValue.Flush)) ==> mm.tagValue.flushedAt > mm.sequence.syncedAt) && (calls(mm.schemaStore.Flush) != old(calls(mm.schemaStore.Flush)) ==> mm.schemaStore.flushedAt > mm.sequence.syncedAt)
+//@   ensures[success_flushes_all_dictionaries] result == nil ==> (calls(mm.ns.Flush) == old(calls(mm.ns.Flush)) + 1 && calls(mm.metric.Flush) == old(calls(mm.metric.Flush)) + 1 && calls(mm.tagValue.Flush) == old(calls(mm.tagValue.Flush)) + 1 && calls(mm.schemaStore.Flush) == old(calls(mm.schemaStore.Flush)) + 1)
+//@   ensures[persisted_counters_cover_every_id_handed_out] result == nil ==> (le32(contents(mm.sequence.buf), 0) == mm.sequence.ns.val && le32(contents(mm.sequence.buf), 4) == mm.sequence.metric.val)
+//@ end
+
+//@ # ---- dictionary flush (C09): cached buckets of the old snapshot are dropped only after the new snapshot is
+//@ # in place, so that a concurrent reader cannot re-cache a bucket of the old one afterwards ---------------------
+//@ ghost field github.com/hashicorp/golang-lru/v2/expirable.LRU.purgedAt int
+//@ extern func github.com/hashicorp/golang-lru/v2/expirable.LRU.Purge
+//@   modifies self.purgedAt
+//@   ensures self.purgedAt == now()
+//@ end
+//@ ghost field github.com/lindb/lindb/kv/version.Snapshot.takenAt int
+//@ func github.com/lindb/lindb/kv.Family.GetSnapshot
+//@   norefine
+//@   modifies nothing
+//@   ensures result != nil && result.takenAt == now()
+//@ end
+//@ func github.com/lindb/lindb/kv.Family.NewFlusher
+//@   modifies nothing
+//@   ensures result != nil
+//@ end
+//@ func github.com/lindb/lindb/kv.Flusher.Release
+//@   modifies nothing
+//@ end
+//@ func newIndexKVFlusher
+//@   modifies nothing
+//@   ensures result1 == nil ==> result0 != nil
+//@ end
+//@ func github.com/lindb/lindb/index/v1.IndexKVFlusher.Close
+//@   modifies nothing
+//@ end
+//@ # the walk only reads the immutable store and drives the flusher
+//@ extern func github.com/lindb/lindb/pkg/imap.IntMap.WalkEntry
+//@   modifies nothing
+//@ end
+//@ extern func github.com/lindb/lindb/pkg/imap.IntMap.IsEmpty
+//@   modifies nothing
+//@ end
+//@ stable indexKVStore.family
+//@ stable indexKVStore.bucketCache
+//@ func indexKVStore.Flush
+//@   prop C09
+//@   clock
+//@   requires s.family != nil && s.bucketCache != nil && s.snapshot != nil
+//@   modifies s.snapshot, s.immutable, s.bucketCache.purgedAt, any(*version.version).ref.val, any(*version.familyVersion).activeVersions[*]
+//@   may_panic
+//@   ensures[cached_buckets_are_dropped_after_the_new_snapshot_is_in_place] calls(s.family.GetSnapshot) != old(calls(s.family.GetSnapshot)) ==> (s.snapshot != nil && s.bucketCache.purgedAt > s.snapshot.takenAt)
+//@ end
